@@ -25,7 +25,7 @@ META = dict(
          "with 16 threshold pairs; pressure_increasing_test: every series of length 0..P over {0,1,2,3} as ndarray and "
          "list. Each state = one real call judged per point by the scalar reference (pair rule; both members of the "
          "pair; the reference is mirror-symmetric, so agreement on a profile and on its reverse - both are in the "
-         "Scale: 12345-level density profiles (monotonic and up-down depth) and pressure ramps; the judged call after profiles with stalls / inversions evaluated earlier in the same process (30, 600, 1500 levels). space - is the upcast/downcast relation). non-trivial = reference demands SUSPECT/FAIL/MISSING/UNKNOWN",
+         "space - is the upcast/downcast relation). Scale: 12345-level density profiles (monotonic and up-down depth) and pressure ramps; the judged call after profiles with stalls / inversions evaluated earlier in the same process (30, 600, 1500 levels). non-trivial = reference demands SUSPECT/FAIL/MISSING/UNKNOWN",
     bounds={"quick": {"density_len": 4, "pressure_len": 6}, "thorough": {"density_len": 5, "pressure_len": 8}},
     not_judged=["pressure profiles whose mean step is exactly 0", "NaN in pressure", "the empty density series (C01)"],
     assumptions=["density differences over the dyadic alphabet are exact"],
